@@ -67,6 +67,8 @@ def prop(case, rec):
 
 def metamorphic_prop(case, rec):
     """One bad MIB never drops another: healing a bad module changes nothing for modules that do not import it."""
+    if any(isinstance(v, list) for src in case['sources'] for v in src.values()):
+        return   # file aliases / multi-module files make "the same module, healed" ill-defined
     sc = copy.deepcopy(case)
     sc['options']['ignoreErrors'] = True
     sc['options']['writeMibs'] = True
@@ -123,7 +125,18 @@ def probes(ctx):
         sc2['sources'] = [dict(sc['sources'][0], **{'MA-MIB': 'empty'})]
         out = orch.run(sc2)
         ctx.probe('D09', not (out.result and 'MA-MIB' in out.result))
-        rec.evaluated(2)
+        # D43: file named like its good first module, broken second module, ignoreErrors
+        sc3 = copy.deepcopy(sc)
+        sc3['universe'] = ['MA-MIB', 'MB-MIB'] + list(orch.BASE)
+        sc3['user'] = ['MA-MIB', 'MB-MIB']
+        sc3['imports'] = {'MA-MIB': [], 'MB-MIB': []}
+        sc3['sources'] = [{'MA-MIB': ['file', 'MA-MIB', 'good', ['MB-MIB'], 'semantic'], 'SNMPv2-SMI': 'good',
+                           'SNMPv2-TC': 'good', 'SNMPv2-CONF': 'good'}]
+        sc3['options']['ignoreErrors'] = True
+        out = orch.run(sc3)
+        wrote = [e for e in out.log if e[0] == 'put' and e[1] == 'MA-MIB']
+        ctx.probe('D43', bool(wrote) and out.result.get('MA-MIB') != 'compiled')
+        rec.evaluated(3)
     ctx.inline('probe', p)
 
 
